@@ -123,4 +123,22 @@ theorem readToken_via_translation (line : Nat) (r : List Byte) :
     · simp only [h34, if_false]
       rfl
 
+/-- more fuel never changes a result of the string loop: it can only turn `.nofuel` into a result (proved on the
+    TRANSLATED loop by a structural tactic that follows the generated decision tree, then carried to the model) -/
+theorem readStr_fuel_monotone (f g line : Nat) (acc r : List Byte) (h : f ≤ g) (hn : readStr f line acc r ≠ .nofuel) :
+    readStr g line acc r = readStr f line acc r :=
+  readStr_fuel f g line acc r h hn
+
+/-- THE WHOLE `Json::Private::readToken` as written today (`skipSpace` executed in place, the dispatch on the first byte,
+    `String::compare` for the three literals, the string loop, the number block) IS the model's `readToken`, on every
+    consistent position `Pos buf line r` (cursor inside a NUL-terminated buffer, line = 1 + line breaks passed) and for
+    every budget of at least `|r| + 2`.  Nothing of the tokenizer is hand-translated any more. -/
+theorem translated_readToken (buf : List Byte) (line : Nat) (r : List Byte) (h : Pos buf line r) (f : Nat)
+    (hf : r.length + 2 ≤ f) : JsonCode.readToken f line r = readToken line r := by
+  unfold JsonCode.readToken
+  exact gen_readToken buf f line r hf h
+
+example : Pos [32, 10, 116, 114, 117, 101, 44, 0] 1 [32, 10, 116, 114, 117, 101, 44, 0] := Pos.init _ (by decide)
+example : JsonCode.readToken 10 1 [32, 10, 116, 114, 117, 101, 44, 0] = .ok ⟨116, .bool true, 2, [44, 0]⟩ := by rfl
+
 end Nstd.Json
